@@ -174,8 +174,11 @@ def symNp : Np DP String where
   zeros := fun r c => s!"0({r},{c})"
   kernel := fun k a => s!"K{k}({a})"
   svd := fun a => (s!"U({a})", s!"S({a})", s!"V({a})")
-  keep := fun _ f => f.den
-  pinv := fun u _ _ k => s!"pinv({u},{k})"
+  nBelow := fun _ f => f.den
+  keep := fun _ n => n
+  invSing := fun s _ => s!"1/{s}"
+  scaleRows := fun a v _ => s!"{a}*{v}"
+  leftDot := fun u k x => s!"pinv({u},{k},{x})"
   dot := fun a b => s!"{a}.{b}"
   take := fun a s => s!"{a}[tri{s.id}]"
   col := fun a j => s!"{a}:{j}"
@@ -209,7 +212,9 @@ example : ((genBuild symNp W' .rotation {} wS wT0).toOption.map fun o =>
 example : ((genBuild symNp W' .tps { kernel := 2, minSV := 1/100 } wS wT0).toOption.map fun o =>
     stateDescr ([wT5].foldl (genStep symNp W') o)) =
     some ("tps [[K2(p0)|[1(4)|p0]]/[[1(4)|p0].T|0(3,3)]] " ++
-      "pinv(U([[K2(p0)|[1(4)|p0]]/[[1(4)|p0].T|0(3,3)]]),100).[p5.T|0(2,3)].T") := by decide +kernel
+      "pinv(U([[K2(p0)|[1(4)|p0]]/[[1(4)|p0].T|0(3,3)]]),100," ++
+      "1/S([[K2(p0)|[1(4)|p0]]/[[1(4)|p0].T|0(3,3)]])*V([[K2(p0)|[1(4)|p0]]/[[1(4)|p0].T|0(3,3)]])).[p5.T|0(2,3)].T") := by
+  decide +kernel
 example : ((genBuild symNp W' .pwa {} wS wT0).toOption.map fun o => (o.source, stateDescr o)) =
     some (wS, "pwa <p1[tri0]:0;(p1[tri0]:1-p1[tri0]:0);(p1[tri0]:2-p1[tri0]:0)>") := by decide +kernel
 /-- a point cloud source of a piecewise-affine alignment is turned into a `TriMesh` (identifier + 100) -/
@@ -237,8 +242,11 @@ def unitNp : Np Nat Unit where
   zeros := fun _ _ => ()
   kernel := fun _ _ => ()
   svd := fun _ => ((), (), ())
+  nBelow := fun _ _ => 0
   keep := fun _ _ => 0
-  pinv := fun _ _ _ _ => ()
+  invSing := fun _ _ => ()
+  scaleRows := fun _ _ _ => ()
+  leftDot := fun _ _ _ => ()
   dot := fun _ _ => ()
   take := fun _ _ => ()
   col := fun _ _ => ()
